@@ -32,7 +32,7 @@ type Vocab struct {
 	AllocNum, FreeNum                                                  *ssa.Function
 
 	AllocINum, AllocBlock, FreeINum, FreeBlock, PreCommit, PostCommit, PostAbort *ssa.Function
-	WriteBits, ZeroBlock, ReadBlock, AssertValidBlock                            *ssa.Function
+	ZeroBlock, ReadBlock, AssertValidBlock                                       *ssa.Function
 
 	WriteInode, InitInode, FreeInode, Resize, Shrink, IsShrinking, DecLink *ssa.Function
 	InodeWrite, InodeRead, bmap, indbmap, Encode, Decode, MkFattr          *ssa.Function
@@ -150,7 +150,6 @@ func resolveVocab(P *Program) *Vocab {
 	get(&v.PreCommit, "alloctxn.(*AllocTxn).PreCommit")
 	get(&v.PostCommit, "alloctxn.(*AllocTxn).PostCommit")
 	get(&v.PostAbort, "alloctxn.(*AllocTxn).PostAbort")
-	get(&v.WriteBits, "alloctxn.(*AllocTxn).WriteBits")
 	get(&v.ZeroBlock, "alloctxn.(*AllocTxn).ZeroBlock")
 	get(&v.ReadBlock, "alloctxn.(*AllocTxn).ReadBlock")
 	get(&v.AssertValidBlock, "alloctxn.(*AllocTxn).AssertValidBlock")
